@@ -19,7 +19,8 @@ LINROWS = [({0: 1.0, 1: 1.0}, -INF, 3.0), ({0: 1.0, 1: -1.0, 2: 2.0}, -1.0, INF)
            ({0: 2.0, 2: -1.0}, 0.0, 1.5), ({0: 3.0, 1: 2.0, 2: 1.0}, -2.0, 4.0)]
 EXTRAS = [dict(), dict(acons=[(('abs', X), {0: 1.0}, -INF, 2.0)]), dict(lcons=[('or', ('ge', X, N(1)), ('le', Y, N(1)))]),
           dict(acons=[(('max', X, Y), {}, 1.0, INF)]), dict(acons=[(('mul', X, B), {0: 1.0}, 0.0, 1.5)]),
-          dict(lcons=[('iff', ('eq', X, N(1)), ('ge', B, N(1)))], acons=[(('min', X, Y, B), {}, -INF, 1.0)])]
+          dict(lcons=[('iff', ('eq', X, N(1)), ('ge', B, N(1)))], acons=[(('min', X, Y, B), {}, -INF, 1.0)]),
+          dict(acons=[(None, {0: 1.0, 2: 1.0}, -INF, INF)])]          # a free row (no bounds at all) among the others
 
 
 def models(tier):
@@ -32,7 +33,7 @@ def models(tier):
                 for pos in ((0, k) if tier == 'quick' else range(k + 1)):
                     rows = [(None,) + LINROWS[i] for i in sub]
                     ac = rows[:pos] + ex.get('acons', []) + rows[pos:]
-                    lin_idx = [j for j, c in enumerate(ac) if c[0] is None]
+                    lin_idx = [j for j, c in enumerate(ac) if c[0] is None and not (c[2] == -INF and c[3] == INF)]
                     m = Model(V3, acons=ac, lcons=ex.get('lcons', []), obj=('max', None, {0: 1.0, 1: 1.0, 2: -1.0}))
                     out.append(('rows%s+extra%d@%d' % (sub, xi, pos), m, lin_idx))
     return out
@@ -263,10 +264,25 @@ SEP_SHAPES = {
 }
 
 
+# logical pairs: a nested disjunction / conjunction leaves an unused item of the same constraint type in front of the items that
+# are delivered (indices of delivered items and of stored items differ)
+LSEP_SHAPES = {
+    'or': lambda a, b: ('or', ('ge', ('v', a), N(1)), ('ge', ('v', b), N(1))),
+    'nested-or': lambda a, b: ('or', ('or', ('ge', ('v', a), N(1)), ('ge', ('v', b), N(1))), ('le', ('v', a), N(0))),
+    'and': lambda a, b: ('and', ('ge', ('v', a), N(0.5)), ('le', ('v', b), N(1))),
+    'nested-and': lambda a, b: ('and', ('and', ('ge', ('v', a), N(0.5)), ('le', ('v', b), N(1))), ('ge', ('v', b), N(-1))),
+    'not-or': lambda a, b: ('not', ('or', ('ge', ('v', a), N(2)), ('ge', ('v', b), N(2)))),
+    'iff': lambda a, b: ('iff', ('ge', ('v', a), N(1)), ('ge', ('v', b), N(1))),
+}
+
+
 def sep_models():
     for n1, f1 in SEP_SHAPES.items():
         for n2, f2 in SEP_SHAPES.items():
             yield ('sep %s | %s' % (n1, n2), Model(V4, acons=[f1(0, 2), f2(1, 3)], obj=('min', None, {0: 1.0, 1: 1.0})), ({0, 2}, {1, 3}))
+    for n1, f1 in LSEP_SHAPES.items():
+        for n2, f2 in LSEP_SHAPES.items():
+            yield ('lsep %s | %s' % (n1, n2), Model(V4, lcons=[f1(0, 2), f2(1, 3)], obj=('min', None, {0: 1.0, 1: 1.0})), ({0, 2}, {1, 3}))
 
 
 def con_vars(c):
